@@ -23,6 +23,46 @@ that do not depend on the bound label.
 from fractions import Fraction
 
 
+class _Cached(tuple):
+    """tuple with cached hash and repr (atoms and keys are deeply nested; both are recomputed constantly otherwise)"""
+
+    def __hash__(self):
+        d = self.__dict__
+        h = d.get('_h')
+        if h is None:
+            h = d['_h'] = tuple.__hash__(self)
+        return h
+
+    def __repr__(self):
+        d = self.__dict__
+        r = d.get('_r')
+        if r is None:
+            r = d['_r'] = tuple.__repr__(self)
+        return r
+
+    def __eq__(self, o):
+        if self is o:
+            return True
+        if isinstance(o, _Cached) and hash(self) != hash(o):
+            return False
+        return tuple.__eq__(self, o)
+
+    def __ne__(self, o):
+        return not self.__eq__(o)
+
+
+class Atom(_Cached):
+    pass
+
+
+class Key(_Cached):
+    pass
+
+
+class Mono(_Cached):
+    pass
+
+
 def _k(x):
     return repr(x)
 
@@ -46,7 +86,9 @@ class Poly:
 
     @staticmethod
     def atom(a, e=1):
-        return Poly({((a, Fraction(e)),): Fraction(1)})
+        if type(a) is not Atom:
+            a = Atom(a)
+        return Poly({Mono(((a, Fraction(e)),)): Fraction(1)})
 
     @staticmethod
     def from_key(k):
@@ -54,7 +96,7 @@ class Poly:
 
     def key(self):
         if self._key is None:
-            self._key = tuple(sorted(self.t.items(), key=_k))
+            self._key = Key(sorted(self.t.items(), key=_k))
         return self._key
 
     def __hash__(self):
@@ -207,7 +249,7 @@ def _pow_nonmono(Q, E):
                 Q = Poly({m: c / lead for m, c in Q.t.items()})
     n, d = E.numerator, E.denominator
     base = ('pow', Q.key(), Fraction(1 if n > 0 else -1, d))
-    return Poly({((base, Fraction(abs(n))),): coef})
+    return Poly({Mono(((Atom(base), Fraction(abs(n))),)): coef})
 
 
 def _atom_pow(a, e):
@@ -288,7 +330,7 @@ def _mulmono(a, b):
         out = [(at, e) for at, e in out if not (at[0] == 'fn' and at[1] == 'exp10')]
         f = mk_fn('exp10', P(tot))
         extra = f if extra is None else extra * f
-    return tuple(sorted(out, key=_k)), extra
+    return Mono(sorted(out, key=_k)), extra
 
 
 # ---------------------------------------------------------------- smart constructors
@@ -310,7 +352,7 @@ def sym(name, *labels):
 
 
 # interpolation is linear in its table values (third argument)
-LINEAR_FNS = {'interp', 'lininterp'}
+LINEAR_FNS = {'interp': 2, 'lininterp': 2, 'at': 0, 'rev': 0}   # name -> position of the argument they are linear in
 
 
 def mk_fn(name, *args):
@@ -338,15 +380,22 @@ def mk_fn(name, *args):
         if p.is_const() and p.const_value().denominator == 1 and abs(p.const_value()) <= 40:
             v = int(p.const_value())
             return Poly.const(Fraction(10) ** v if v >= 0 else Fraction(1, 10 ** (-v)))
-    if name in LINEAR_FNS and len(args) >= 3 and args[2][0] == 'B':
-        lab, fp = args[2][1], Poly.from_key(args[2][2])
-        out = Poly()
-        for m, c in fp.t.items():
-            dep = tuple((a, e) for a, e in m if lab in atom_labels(a))
-            ind = tuple((a, e) for a, e in m if lab not in atom_labels(a))
-            a2 = ('B', lab, Poly({dep: Fraction(1)}).key())
-            out = out + Poly({ind: c}) * Poly.atom(('fn', name) + tuple(args[:2]) + (a2,) + tuple(args[3:]))
-        return out
+    if name == 'at' and len(args) == 2 and args[0][0] == 'B' and args[1][0] == 'P' and args[0][1]:
+        # x[i] with i the running index of that very axis is the generic element
+        if Poly.from_key(args[1][1]) == Poly.atom(('sym', 'idx:' + str(args[0][1]), (args[0][1],))):
+            return Poly.from_key(args[0][2])
+    if name in LINEAR_FNS and len(args) > LINEAR_FNS[name] and args[LINEAR_FNS[name]][0] == 'B':
+        k = LINEAR_FNS[name]
+        lab, fp = args[k][1], Poly.from_key(args[k][2])
+        simple = fp.is_monomial() and list(fp.t.values()) == [Fraction(1)] and all(lab in atom_labels(a) for a, _ in list(fp.t)[0])
+        if not simple:
+            out = Poly()
+            for m, c in fp.t.items():
+                dep = tuple((a, e) for a, e in m if lab in atom_labels(a))
+                ind = tuple((a, e) for a, e in m if lab not in atom_labels(a))
+                a2 = ('B', lab, Poly({dep: Fraction(1)}).key())
+                out = out + Poly({ind: c}) * mk_fn(name, *(tuple(args[:k]) + (a2,) + tuple(args[k + 1:])))
+            return out
     if name == 'rev' and len(args) == 1 and args[0][0] == 'B':
         inner = Poly.from_key(args[0][2])
         if inner.is_monomial():
@@ -558,6 +607,50 @@ def count(label):
 
 # ---------------------------------------------------------------- rebuild / substitute
 
+def shift_index(p, label, k):
+    """The term for position i+k of axis ``label`` given the term for the generic position i:
+    free occurrences x[i] become x[i+k]; explicit x[i+j] become x[i+j+k]; bound occurrences are untouched."""
+    idx = Poly.atom(('sym', 'idx:' + str(label), (label,)))
+
+    def go(q):
+        out = Poly()
+        for m, c in q.t.items():
+            term = Poly.const(c)
+            for a, e in m:
+                term = term * go_atom(a).pow(e)
+            out = out + term
+        return out
+
+    def go_atom(a):
+        kind = a[0]
+        if kind == 'sym':
+            if a[1] == 'idx:' + str(label):
+                return idx + k
+            if label in a[2]:
+                if k == 0:
+                    return Poly.atom(a)
+                return mk_fn('at', B(label, Poly.atom(a)), P(idx + k))
+            return Poly.atom(a)
+        if kind == 'sum':
+            return Poly.atom(a) if a[1] == label else sum_over(go(Poly.from_key(a[2])), a[1])
+        if kind == 'pow':
+            return go(Poly.from_key(a[1])).pow(a[2])
+        if kind == 'ind':
+            return mk_ind(a[1], go(Poly.from_key(a[2])))
+        if kind == 'fn':
+            args = []
+            for x in a[2:]:
+                if x[0] == 'P':
+                    args.append(P(go(Poly.from_key(x[1]))))
+                elif x[0] == 'B':
+                    args.append(x if x[1] == label else B(x[1], go(Poly.from_key(x[2]))))
+                else:
+                    args.append(x)
+            return mk_fn(a[1], *args)
+        return Poly.atom(a)
+    return go(p)
+
+
 def rebuild(p, f, post=None):
     """Rebuild ``p`` bottom-up; ``f(atom)`` returns a Poly to replace a (rebuilt) atom or None;
     ``post`` (Poly -> Poly) is applied to every rebuilt polynomial, nested ones included."""
@@ -721,37 +814,42 @@ def show(p, limit=2000):
     if not p.t:
         return '0'
     parts = []
+    total = 0
     for m, c in sorted(p.t.items(), key=_k):
-        f = '*'.join((show_atom(a) + ('' if e == 1 else '^%s' % e)) for a, e in m)
+        f = '*'.join((show_atom(a, limit) + ('' if e == 1 else '^%s' % e)) for a, e in m)
         if not f:
-            parts.append(str(c))
+            part = str(c)
         elif c == 1:
-            parts.append(f)
+            part = f
         elif c == -1:
-            parts.append('-' + f)
+            part = '-' + f
         else:
-            parts.append('%s*%s' % (c, f))
+            part = '%s*%s' % (c, f)
+        parts.append(part)
+        total += len(part) + 3
+        if total > limit:
+            break
     s = ' + '.join(parts).replace('+ -', '- ')
     return s if len(s) <= limit else s[:limit] + '...'
 
 
-def show_atom(a):
+def show_atom(a, limit=2000):
     k = a[0]
     if k == 'sym':
         return a[1] + ('[%s]' % ','.join(str(x) for x in a[2]) if a[2] else '')
     if k == 'sum':
-        return 'SUM_%s(%s)' % (a[1], show(Poly.from_key(a[2])))
+        return 'SUM_%s(%s)' % (a[1], show(Poly.from_key(a[2]), limit))
     if k == 'pow':
-        return '(%s)^%s' % (show(Poly.from_key(a[1])), a[2])
+        return '(%s)^%s' % (show(Poly.from_key(a[1]), limit), a[2])
     if k == 'ind':
-        return '[%s %s]' % (show(Poly.from_key(a[2])), a[1])
+        return '[%s %s]' % (show(Poly.from_key(a[2]), limit), a[1])
     if k == 'fn':
         args = []
         for x in a[2:]:
             if x[0] == 'P':
-                args.append(show(Poly.from_key(x[1])))
+                args.append(show(Poly.from_key(x[1]), limit))
             elif x[0] == 'B':
-                args.append('%s->%s' % (x[1], show(Poly.from_key(x[2]))))
+                args.append('%s->%s' % (x[1], show(Poly.from_key(x[2]), limit)))
             else:
                 args.append(str(x[1]))
         return '%s(%s)' % (a[1], ', '.join(args))
